@@ -20,16 +20,17 @@ claim("C14", "DESIGN.md §2 C14",
       "2..12 Transaction.create / Account.fund coroutines run concurrently on the real ledger/database while a gate around "
       "AIOSQLite.run lets a generated choice sequence decide which pending database call proceeds next (before the call and before "
       "its result is delivered); the history oracle checks pairwise-disjoint inputs of simultaneously held builds, unavailability of "
-      "held outputs to later builds, and full availability after every build is released or failed. Schedules are sampled, not "
-      "enumerated: exploration level.",
-      "Only interleavings induced by database-call completion order within one process/event loop; broadcast is a stub.")
+      "held outputs to later builds, and full availability after every build is released or failed (incl. builds whose signing step "
+      "is made to fail after the inputs are reserved, wallet re-sync while inputs are held, broadcasts that are refused, never "
+      "complete and are cancelled, or time out). Schedules are sampled, not enumerated: exploration level.",
+      "Only interleavings induced by database-call completion order within one process/event loop; the network is a stub.")
 claim("C09", "DESIGN.md §2 C09",
       "model-based property testing: Hypothesis op histories over a chain/server model, real ledger sync, model-vs-wallet comparison after every delivery round",
       "Generated histories (fund within the gap / reuse, spend to change/receiving/external with confirmed and unconfirmed parents, "
       "claim, support, abandon, 12 kinds of third-party output script, mining, sequential / concurrent / duplicate / stale delivery of "
       "address notifications with a gate scheduler ordering every database and network call) run against the real Ledger.update_history "
-      "and Database; after each round the wallet's per-address history, balances (spendable and with claims), UTXO id set and address "
-      "gap are compared with an independent chain model. Histories and schedules are sampled: exploration level.",
+      "and Database; after each round the wallet's per-address history, balances (spendable, with claims, and the detailed view "
+      "total / available / reserved / claims / supports), UTXO id set and address gap are compared with an independent chain model. Histories and schedules are sampled: exploration level.",
       "Server model follows the ElectrumX/LBRY-hub conventions stated in the evidence assumptions; headers are empty so Merkle "
       "verification is skipped here (C08); <=45 ops per history.")
 claim("C16", "DESIGN.md §2 C16",
@@ -122,7 +123,8 @@ claim("C05", "DESIGN.md §2 C05",
       "Transactions built through the library API (all Input/Output factories, every output template, coinbase inputs) with boundary-biased "
       "32-bit version/sequence/locktime, 64-bit amounts, 1..300 inputs/outputs steered to 252/253/254, script lengths steered to "
       "252/253/65535/65536: raw bytes must equal the reference encoding, parse back field by field, re-serialise identically, and the id must "
-      "equal the reference txid; reference-built segwit serialisations with generated witnesses must parse to the generated fields with "
+      "equal the reference txid (also when a spent in-memory parent is edited after the child was first serialised, and for "
+      "multi-signature redeem inputs whose redeem script crosses the 76 / 253 byte push boundaries); reference-built segwit serialisations with generated witnesses must parse to the generated fields with "
       "raw_sans_segwit / id equal to the legacy form; 13 real raws are replayed.",
       "Reference vlib/ref/btctx.py self-tested on Bitcoin genesis, upstream-asserted LBRY ids and the BIP143 example.")
 claim("C15", "DESIGN.md §2 C15",
@@ -136,7 +138,8 @@ claim("C07", "DESIGN.md §2 C07",
       "model-based property testing with really mined chains against an independent header/PoW/retarget reference; exhaustive enumeration of single damages before reopen and of retarget arithmetic inputs",
       "An independent reference (112-byte layout, LBRY PoW hash, Bitcoin compact bits, lbrycrd per-block retarget in exact integers; self-tested "
       "on lbrycrd vectors and 20 real main-net headers) judges every batch. Generated histories over Headers subclasses with easy generated "
-      "targets and really mined headers: extensions split into 1..3 calls, forks, replays, batches with one field altered with/without "
+      "targets and really mined headers: extensions split into 1..3 calls, forks (also ending at the old tip or beginning with "
+      "already stored headers), replays, batches with one field altered with/without "
       "re-mining (exactly one rule broken), retarget clamps and negative spans, checkpointed chunk fetches with 8 bad-chunk variants, restarts "
       "after the file is cut at a byte offset or k bytes of a header above the checkpoint are overwritten. Enumerated: retarget arithmetic for "
       "spans -40..800 s x bits shapes, every byte flip of the real headers, every header above the checkpoint x 11 field offsets and every "
@@ -169,7 +172,8 @@ claim("C18", "DESIGN.md §2 C18",
 claim("C19", "DESIGN.md §2 C19",
       "model-based property testing: generated blob populations (own / downloaded with and without file row / network-seeded / pending / sd), limits around current usage and 1..3 cleanup passes against the real DiskSpaceManager, judged by an independent row model",
       "Populations of streams (own published, own by ownership update, downloaded with / without a file row) and network blobs with lengths from "
-      "{1, 2^20-1, 2^20, 2^20+1, 2 MiB, random} and generated ages (with ties) are installed through the real storage API with sparse files; "
+      "{1, 2^20-1, 2^20, 2^20+1, 2 MiB, random} and generated ages (with ties) are installed through the real storage API with sparse files, own streams also through the real StreamManager.create(); the "
+      "configuration is the real lbry.conf.Config with limits coming from generated sources and changed through update_config(); "
       "content and network limits are 0, usage+-k or huge; 1..3 passes of clean() or the split _clean() calls with optional additions "
       "in between. The oracle is a model of the rows (it never calls get_stored_blobs): deletions only from a class over its limit, content "
       "limit 0 = unlimited, own blobs never deleted, afterwards within the limit or nothing removable left, freed space minus the largest "
@@ -192,7 +196,8 @@ claim("C02", "DESIGN.md §2 C02",
       "Streams are created with the real StreamDescriptor.create_stream from generated contents/keys/IV sequences (scaled mode with "
       "MAX_BLOB_SIZE patched to 16..4096, effectiveness of the patch proven per process; enumerated real 2 MiB streams at k*(2MiB-1)+d): every "
       "blob file hashes to its name, lengths <= max, terminator, numbering, independent decrypt equals the file, sd hash and stream hash equal "
-      "the reference, reload equal. Tamper: a valid descriptor with one of ~48 edits (optionally re-committing the stream hash so structural "
+      "the reference, reload equal; in a third of the cases the executor is harness-owned (queued jobs run one at a time in LIFO / "
+      "FIFO order) so that a write create_stream() did not wait for is still queued when it returns. Tamper: a valid descriptor with one of ~48 edits (optionally re-committing the stream hash so structural "
       "checks are tested alone) stored under its own SHA-384 must be refused whenever the reference says hash mismatch / broken invariant / "
       "malformed. Names: sanitize_file_name and the ManagedStream getter never return '/', '\\\\', NUL or C0 controls nor an empty name.",
       "Hash-neutral shifts across the undelimited commitment and re-committed consistent edits are a don't-care; any exception counts as "
